@@ -14,6 +14,10 @@ def cases(tier, seed):
                 for fi in (True, False):
                     for n in ((12, 40) if tier == "quick" else (5, 12, 40, 100)):
                         yield dict(seed=seed * 100 + s, q=q, has_w=has_w, fit_intercept=fi, n=n, positive=(s % 2 == 1))
+    for s in seeds:
+        for q in (0.2, 0.5, 0.8):
+            # features stored as integers, real-valued targets: the same fit as with the same numbers stored as floats
+            yield dict(seed=seed * 100 + s, q=q, has_w=(s % 2 == 1), fit_intercept=True, n=30, positive=False, int_features=True)
 
 
 def pinball2(q, y, f, w):
@@ -30,8 +34,10 @@ def check(c):
     rs = numpy.random.RandomState(c["seed"])
     n = c["n"]
     X = rs.randn(n, 2)
+    if c.get("int_features"):
+        X = rs.randint(-4, 5, (n, 2)).astype(numpy.int64)
     y = X[:, 0] * 2 - X[:, 1] + 0.5 + rs.randn(n)
-    if (c["seed"] + n) % 2 == 1:
+    if (c["seed"] + n) % 2 == 1 and not c.get("int_features"):
         y = numpy.round(y * 3).astype(numpy.int64)      # targets stored as integers: scored like the same real numbers
     w = rs.randint(1, 4, n).astype(float) if c["has_w"] else None
     X0, y0, w0 = X.copy(), y.copy(), None if w is None else w.copy()
@@ -57,6 +63,11 @@ def check(c):
         return dict(**{"class": "params-changed"}, what="get_params changed by fit/score")
     if not (numpy.array_equal(X, X0) and numpy.array_equal(y, y0) and (w is None or numpy.array_equal(w, w0))):
         return dict(**{"class": "input-mutated"}, what="training data modified")
+    if c.get("int_features"):
+        mf = QuantileLinearRegression(quantile=c["q"], fit_intercept=c["fit_intercept"], positive=c["positive"]).fit(X.astype(float), y, sample_weight=w)
+        if not numpy.allclose(mf.coef_, m.coef_, rtol=0, atol=1e-9) or abs(mf.intercept_ - m.intercept_) > 1e-9:
+            return dict(**{"class": "integer-features-fit-differs"}, what="features stored as int64: coef %r intercept %r, as float64: %r %r"
+                        % (m.coef_.tolist(), float(m.intercept_), mf.coef_.tolist(), float(mf.intercept_)))
     # integer weights == repeated rows: both runs execute the same number of IRLS steps from data that
     # are equivalent for every weighted least-squares step, so coefficients agree up to rounding
     if w is not None and c["q"] == 0.5 and not c["positive"]:
